@@ -10,7 +10,7 @@
 From Coq Require Import List ZArith NArith Floats Bool.
 Import ListNotations.
 Require Import Clarabel.Base.Ops Clarabel.Base.Dyadic.
-Require Import Clarabel.Cones.Vec Clarabel.Cones.NN Clarabel.Cones.SOC Clarabel.Cones.Step.
+Require Import Clarabel.Cones.Vec Clarabel.Cones.NN Clarabel.Cones.SOC Clarabel.Cones.Step Clarabel.Cones.PSDIndex.
 
 Definition ofb (b : bool) : N := if b then 0%N else 1%N.
 (** combining codes: any 1 wins (violation candidate), then 2 (information), then 0 *)
@@ -436,3 +436,67 @@ Definition p_affine (tolexp : Z) (a b : dy) (Wx yin yout : list dy) : N :=
   let sc := dadd (dmul (dabs a) (dnorminf Wx)) (dmul (dabs b) (dnorminf yin)) in
   let expect := dmap2 (fun p q => dadd (dmul a p) (dmul b q)) Wx yin in
   ofb (Nat.eqb (length Wx) (length yin) && dallclose (dpow2 tolexp) sc yout expect).
+
+(** ** PSD cone: validation of the HYPOTHESES of the PSD theorems (SpecPSDScal.v) *)
+(** [psd_factors]: S = L1 L1ᵀ, Z = L2 L2ᵀ, L2ᵀ L1 = U diag(σ) Vᵀ, UᵀU = I, VᵀV = I = VVᵀ, σ > 0;
+    L1 lower triangular with positive diagonal (nonsingular); the assembly R = (L1 V) Λ̂, 
+    R⁻¹ = Λ̂ (Uᵀ L2ᵀ) with the stored Λ̂ = Λ^(-1/2), and Λ̂² σ = 1.  All residuals in exact dyadic
+    arithmetic, tolerance 2^tolexp relative to the entrywise |·| products. *)
+Definition dlowerpos (n : nat) (L : dmat) : bool :=
+  forallb (fun r => forallb (fun c => if Nat.ltb r c then deqb (dget L r c) d0
+                                      else if Nat.eqb r c then dltb d0 (dget L r c) else true)
+                            (seq 0 n)) (seq 0 n).
+Definition dresid (tol : dy) (n : nat) (A B : dmat) (absA absB : dmat) : bool :=
+  dmclose tol (dadd (dmmax absA) (dmmax absB)) A B.
+Definition p_psd_factors (tolexp : Z) (n : nat) (S Zm : dmat)
+           (L1cm L2cm Ucm sv Vtcm isqv Rcm Ricm : list dy) : N :=
+  let tol := dpow2 tolexp in
+  let L1 := dcolmajor n L1cm in let L2 := dcolmajor n L2cm in
+  let U := dcolmajor n Ucm in let Vt := dcolmajor n Vtcm in let V := dtrans n Vt in
+  let R := dcolmajor n Rcm in let Ri := dcolmajor n Ricm in
+  let Lam := ddiag n sv in let Dh := ddiag n isqv in
+  let I := ddiag n (repeat d1 n) in
+  let ab := dmabs in
+  let mm := dmm n in let T := dtrans n in
+  let c1 := dresid tol n (mm L1 (T L1)) S (mm (ab L1) (T (ab L1))) (ab S) in
+  let c2 := dresid tol n (mm L2 (T L2)) Zm (mm (ab L2) (T (ab L2))) (ab Zm) in
+  let c3 := dresid tol n (mm (T L2) L1) (mm U (mm Lam Vt))
+                   (mm (T (ab L2)) (ab L1)) (mm (ab U) (mm Lam (ab Vt))) in
+  let c4 := dresid tol n (mm (T U) U) I (mm (T (ab U)) (ab U)) I &&
+            dresid tol n (mm Vt V) I (mm (ab Vt) (ab V)) I &&
+            dresid tol n (mm V Vt) I (mm (ab V) (ab Vt)) I in
+  let c5 := Nat.eqb (length sv) n && forallb (fun l => dltb d0 l) sv in
+  let c6 := dlowerpos n L1 && dlowerpos n L2 in
+  let c7 := dresid tol n R (mm (mm L1 V) Dh) (ab R) (mm (mm (ab L1) (ab V)) Dh) &&
+            dresid tol n Ri (mm Dh (mm (T U) (T L2))) (ab Ri) (mm Dh (mm (T (ab U)) (T (ab L2)))) in
+  let c8 := Nat.eqb (length isqv) n &&
+            forallb (fun p => dclose tol d1 (dmul (dmul (fst p) (fst p)) (snd p)) d1) (combine isqv sv) in
+  ofb (c1 && c2 && c3 && c4 && c5 && c6 && c7 && c8).
+
+(** hypothesis of the step theorems: γ = −1/α is a lower bound of the spectrum of the scaled
+    direction M̂ = Λ̂ (Bᵀ ΔX B) Λ̂ (z-side, B = R) or Λ̂ (B ΔX Bᵀ) Λ̂ (s-side, B = R⁻¹), i.e.
+    I + α·M̂ is positive semidefinite: exact division-free test of I + α M̂ + τ I ≻ 0 *)
+Definition p_psd_step_hyp (tolexp : Z) (n : nat) (sside : bool) (Bcm isqv : list dy) (dX : dmat) (alpha : dy) : N :=
+  let B := dcolmajor n Bcm in let Dh := ddiag n isqv in
+  let mm := dmm n in let T := dtrans n in
+  let inner := if sside then mm B (mm dX (T B)) else mm (T B) (mm dX B) in
+  let M := mm Dh (mm inner Dh) in
+  let innerabs := if sside then mm (dmabs B) (mm (dmabs dX) (T (dmabs B))) else mm (T (dmabs B)) (mm (dmabs dX) (dmabs B)) in
+  let Mabs := dmmax (mm Dh (mm innerabs Dh)) in
+  let tau := dmul (dmul (dpow2 tolexp) (dofZ (Z.of_nat n))) (dadd d1 (dmul alpha Mabs)) in
+  ofb (dleb d0 alpha && dpd (S n) (dmaxpy n (ddiag n (repeat d1 n)) alpha M tau)).
+
+(** ** PSD margins and shifts *)
+Definition dshiftI (n : nat) (M : dmat) (a : dy) : dmat :=
+  dmk n (fun r c => dadd (dget M r c) (if Nat.eqb r c then a else d0)).
+(** margins(): α is the minimum eigenvalue of M up to slack: M − (α − slack)I ≻ 0 and
+    M − (α + slack)I is not; slack = 2^tolexp · n · max|M| *)
+Definition p_psd_margin (tolexp : Z) (n : nat) (M : dmat) (alpha : dy) : N :=
+  let slack := dmul (dmul (dpow2 tolexp) (dofZ (Z.of_nat n))) (dmax (dmmax (dmabs M)) (D 1 (-1000))) in
+  ofb (dpd (S n) (dshiftI n M (dneg (dsub alpha slack))) &&
+       negb (dpd (S n) (dshiftI n M (dneg (dadd alpha slack))))).
+(** a shifted matrix is positive definite with margin m:  M − m I ≻ 0 *)
+Definition p_psd_strict (n : nat) (M : dmat) (m : dy) : N := ofb (dpd (S n) (dshiftI n M (dneg m))).
+(** scaled_unit_shift on the packed vector: model (PSDIndex.v) at binary64, bit for bit *)
+Definition c_psd_unit_shift (n : nat) (z : list float) (a : float) (out : list float) : N :=
+  c_bitsame (PSDIndex.psd_scaled_unit_shift F n z a) out.
